@@ -4,6 +4,7 @@ import (
 	"errors"
 	"fmt"
 	"io"
+	"os"
 	"sort"
 
 	"github.com/parquet-go/parquet-go"
@@ -70,6 +71,9 @@ func (C09) Gen(t *tape.Tape, tier string) any {
 	sc.Seed = t.Seed()
 	k := []int{2, 0, 1, 3, 4, 5, 9}[t.Weighted(4, 1, 1, 3, 2, 1, 1)]
 	pattern := keyPatterns[t.Draw(len(keyPatterns))]
+	if pattern == "partial" && k > 5 {
+		k = 5
+	}
 	for i := 0; i < k; i++ {
 		in := MergeInput{Pattern: pattern}
 		if t.Chance(1, 4) {
@@ -80,7 +84,7 @@ func (C09) Gen(t *tape.Tape, tier string) any {
 			in.N = 400
 		}
 		if in.Pattern == "partial" {
-			in.N = []int{1500, 2600, 4000}[t.Draw(3)]
+			in.N = []int{1300, 1500, 2600}[t.Draw(3)]
 		}
 		nch := t.Draw(4)
 		for j := 0; j < nch; j++ {
@@ -88,6 +92,17 @@ func (C09) Gen(t *tape.Tape, tier string) any {
 		}
 		in.EOFEarly = t.Bool()
 		sc.Inputs = append(sc.Inputs, in)
+	}
+	if pattern == "partial" && k >= 2 {
+		// range refinement needs file-backed inputs with a page index, long lone
+		// stretches and - to make a misplaced boundary page visible - a second,
+		// non-null sorting column that orders equal first-column keys across inputs
+		if t.Chance(2, 3) {
+			sc.Subject = "files"
+		}
+		if t.Chance(1, 2) {
+			sc.Sort = sortSpecs[10+t.Draw(2)]
+		}
 	}
 	sc.Dedupe = sc.Subject != "readers" && t.Chance(1, 4)
 	sc.Consume = []string{"read", "write"}[t.Weighted(3, 2)]
@@ -100,6 +115,10 @@ func (C09) Gen(t *tape.Tape, tier string) any {
 	sc.SrcW.PageBufferSize = []int{64, 32, 256, 1024, 0}[t.Draw(5)]
 	sc.SrcW.WriteBufferSize = -1
 	sc.SrcW.MaxRowsPerGroup = 0 // one row group per input: row groups are the merge's inputs
+	if pattern == "partial" {
+		sc.SrcW.PageBufferSize = []int{64, 32, 256}[t.Draw(3)]
+		sc.SrcW.NoStats = false
+	}
 	sc.DstW = gen.GenWOpts(t, sh)
 	sc.DstW.WriteBufferSize = -1
 	if t.Bool() {
@@ -107,6 +126,16 @@ func (C09) Gen(t *tape.Tape, tier string) any {
 	}
 	sc.NoRefine = t.Chance(1, 4)
 	sc.Pools = GenPoolPolicy(t)
+	if force := os.Getenv("PQSIM_C09_PATTERN"); force != "" { // triage aid: bias the batch towards one pattern
+		for i := range sc.Inputs {
+			sc.Inputs[i].Pattern = force
+			if force == "partial" {
+				sc.Inputs[i].N = 1500 + 100*i
+			}
+		}
+		sc.Subject, sc.Dedupe, sc.NoRefine = "files", false, false
+		sc.Sort = sortSpecs[10]
+	}
 	return sc
 }
 
